@@ -106,6 +106,11 @@ func (m *natsConnectionMonitor) SetStatus(status ConnectionStatus) {
 	m.status.Store(status)
 }
 
+// compareAndSetStatus sets the status to "to" only if it still is "from".
+func (m *natsConnectionMonitor) compareAndSetStatus(from, to ConnectionStatus) bool {
+	return m.status.CompareAndSwap(from, to)
+}
+
 func (m *natsConnectionMonitor) handleDisconnect(nc *nats.Conn) {
 	m.status.Store(ConnectionStatusDisconnected)
 
@@ -337,10 +342,22 @@ func (e *kvElection) verifyLeadershipAfterReconnect() {
 	// A disconnect (or close) that arrived while the verification was running is
 	// newer than the reconnect being verified: leave its status alone, the
 	// grace timer it armed must still be able to demote.
-	if e.connectionMonitor != nil && e.connectionMonitor.Status() == ConnectionStatusReconnected {
-		e.connectionMonitor.SetStatus(ConnectionStatusConnected)
+	// (Looking at the status and then setting it are two steps: a disconnect
+	// notification - its handler does not take the election mutex - can land in
+	// between and would be overwritten all the same. The package's own monitor
+	// swaps the value in one step.)
+	if e.connectionMonitor != nil {
+		confirmed := false
+		if m, ok := e.connectionMonitor.(interface {
+			compareAndSetStatus(from, to ConnectionStatus) bool
+		}); ok {
+			confirmed = m.compareAndSetStatus(ConnectionStatusReconnected, ConnectionStatusConnected)
+		} else if e.connectionMonitor.Status() == ConnectionStatusReconnected {
+			e.connectionMonitor.SetStatus(ConnectionStatusConnected)
+			confirmed = true
+		}
 		// Update connection status metric
-		if e.cfg.Metrics != nil {
+		if confirmed && e.cfg.Metrics != nil {
 			e.cfg.Metrics.SetConnectionStatus(1, e.getMetricsLabels())
 		}
 	}
